@@ -17,7 +17,7 @@ from sim.profile import Profile, V
 RULE = (
     "one run = one seeded source (catalogue mesh x provenance incl. sources that ship their own edge tables and scaled xyz, or a "
     "sample file) + seeded prior derivations on it + 1-3 judged selections (isel face/node/edge with unsorted/scalar/single/all "
-    "index sets, bounding box incl. antimeridian-spanning, circle, k nearest, constant latitude incl. values bit-equal to a node "
+    "index sets, node/edge sets partly spelt with negative indices, bounding box incl. antimeridian-spanning, circle, k nearest, constant latitude incl. values bit-equal to a node "
     "latitude) through Grid or UxDataArray (face/node/edge-centred id-encoded data of rank 1-3), each followed by seeded derived "
     "accesses on the result; the latitude scan runs under a seeded simulated prange schedule (JIT off) or thread count (JIT on). "
     "non-trivial = a judged selection preceded by at least one derivation on the source and followed by at least one derived "
@@ -407,7 +407,15 @@ class Subset(Profile):
             elif mode == "scalar":
                 idx = idx[:1]
             op["idx_resolved"] = idx[:12]
-            arg = idx[0] if mode == "scalar" else (np.array(idx) if mode == "array" else list(idx))
+            pos = list(idx)
+            # node/edge selections: a third of the list/array index sets name every other element from the
+            # end (numpy's negative indices) - same elements, so the model is unchanged.  Decided from the
+            # generated numbers themselves, no extra PRNG draw, so histories of earlier rounds are unchanged.
+            # (Face selections are left alone: the recorded source indices would echo the negative spelling.)
+            if how != "isel_face" and mode in ("list", "array") and sum(op["idx"]) % 3 == 0:
+                pos = [x - n if i % 2 else x for i, x in enumerate(idx)]
+                op["negative_spelling"] = True
+            arg = pos[0] if mode == "scalar" else (np.array(pos) if mode == "array" else list(pos))
             kind = {"isel_face": "face centers", "isel_node": "nodes", "isel_edge": "edge centers"}[how]
             faces = self.faces_of_elements(W, kind, idx)
             order = list(idx) if how == "isel_face" else None
